@@ -16,8 +16,8 @@ from typing import Any, Dict, List, Optional
 from vt import sym
 from vt.props._recv import InlineExecutor, Lab, ackable, encode, make_broker
 
-KINDS = ("valid", "malformed", "unknown", "malformed_raw")
-OUTCOMES = ("return", "raise", "backend_fail", "hook_raise", "never", "timeout")
+KINDS = ("valid", "malformed", "unknown", "malformed_raw", "empty", "empty_raw")
+OUTCOMES = ("return", "raise", "backend_fail", "hook_raise", "never", "timeout", "timeout_cleanup")
 
 
 class Run:
@@ -69,8 +69,14 @@ def run(c: sym.Ctx, spec: Dict[str, Any], on_step: Any = None) -> Run:
     async def target(i: int) -> Any:
         lab.rec("task_start", i)
         try:
-            if r.outcomes[i] in ("never", "timeout"):
-                await lab.gate(f"hang:{i}")
+            if r.outcomes[i] in ("never", "timeout", "timeout_cleanup"):
+                try:
+                    await lab.gate(f"hang:{i}")
+                except asyncio.CancelledError:
+                    if r.outcomes[i] == "timeout_cleanup":
+                        lab.rec("cleanup_begin", i)
+                        await lab.gate(f"cleanup:{i}")  # the task's own cleanup takes a while
+                    raise
             await lab.gate(f"task:{i}")
             if r.outcomes[i] == "raise":
                 raise ValueError(f"boom{i}")
@@ -83,24 +89,32 @@ def run(c: sym.Ctx, spec: Dict[str, Any], on_step: Any = None) -> Run:
     for i in range(M):
         if r.kinds[i] == "malformed":
             data = b"not-json-%d" % i
+        elif r.kinds[i] == "empty":
+            data = b""
+        elif r.kinds[i] == "empty_raw":
+            msgs.append(bytes())
+            continue
         elif r.kinds[i] == "malformed_raw":
             # an un-wrapped bytes payload whose content happens to equal the receiver's internal end-of-queue marker
             msgs.append(bytes([45, 49]))
             continue
         else:
-            labels = {"hook_raise": True} if r.outcomes[i] == "hook_raise" else ({"timeout": 5} if r.outcomes[i] == "timeout" else {})
+            labels = {"hook_raise": True} if r.outcomes[i] == "hook_raise" else ({"timeout": 5} if r.outcomes[i] in ("timeout", "timeout_cleanup") else {})
             data = encode(broker, "t" if r.kinds[i] == "valid" else "nope", f"id{i}", [i], labels)
-        msgs.append(ackable(lab, i, data, False) if spec.get("ackable", True) else data)
+        msgs.append(ackable(lab, i, data, spec.get("ack_mode", False)) if spec.get("ackable", True) else data)
     broker.script = msgs
     recv = Receiver(
         broker, executor=InlineExecutor(), run_startup=False, max_async_tasks=A, max_prefetch=P,
         max_tasks_to_execute=N, wait_tasks_timeout=r.wtt,
     )
-    ident = {id(m): i for i, m in enumerate(msgs)}
+    ident: Dict[int, List[int]] = {}
+    for i_, m_ in enumerate(msgs):
+        ident.setdefault(id(m_), []).append(i_)  # equal raw payloads may be one shared object: attribute in delivery order
     real_cb = recv.callback
 
     async def cb(message: Any, raise_err: bool = False) -> None:
-        i = ident.get(id(message), -1)
+        slot = ident.get(id(message)) or [-1]
+        i = slot.pop(0) if len(slot) > 1 else slot[0]
         lab.rec("cb_begin", i)
         try:
             await real_cb(message=message, raise_err=raise_err)
